@@ -47,6 +47,10 @@ def lean_check(pid, spec, log, tier="quick"):
     log.append(out[-3000:])
     mods = [spec["module"]] + spec.get("extra_modules", [])
     if rc != 0:
+        # one module that no longer builds must not keep the others from being built: build them one by one
+        for mod in mods:
+            with Lock("lake"):
+                sh(["lake", "build", mod], cwd=LEAN)
         m = re.findall(r"error: ([^\n]*\n?[^\n]*)", out)
         broken = re.findall(r"✖ \[\d+/\d+\] Building (\S+)", out)
         failures.append("lake build failed (%s): %s" % (", ".join(broken) or spec["module"], (m[0] if m else out[-400:]).strip()[:500]))
@@ -174,10 +178,18 @@ def main():
     proof_failures = []
     if translator_failed:
         proof_failures.append("translator failed: " + out.strip()[-300:])
+    try:
+        stage_failures = json.load(open(os.path.join(BUILD, "translator.json")))
+    except Exception:
+        stage_failures = {}
 
     # 3. theorems
     obligations, discharged, fails = lean_check(pid, spec, log, tier)
     proof_failures += fails
+    if fails and stage_failures:
+        # what the translator could not express (the generated definitions it affects came out empty, which is why the
+        # obligations over them no longer check)
+        proof_failures += ["translator: %s: %s" % kv for kv in sorted(stage_failures.items())]
     driver_ok = os.path.exists(lean_driver())
 
     # 4 + 5. correspondence on the operations this property's theorems depend on, and the implementation-side
